@@ -900,6 +900,9 @@ class Exporter {
     // the pattern this was instantiated from: a stable site key across instantiations
     if (const FunctionDecl *Pat = FD->getTemplateInstantiationPattern()) {
       f["pattern"] = fullLocStr(Pat->getLocation());
+      json::Array pp;
+      for (const ParmVarDecl *P : Pat->parameters()) pp.push_back(P->getNameAsString());
+      f["pparams"] = std::move(pp);
     }
     json::Array params;
     for (const ParmVarDecl *P : FD->parameters()) {
